@@ -835,6 +835,20 @@ func (m *Manager) computeParentMap() (v1Parents, v2Parents map[types.Hash256]int
 	return
 }
 
+// deepCopyV2 returns a copy of txn that shares no memory with it.
+// V2Transaction.DeepCopy copies every slice, but a resolution that is a
+// renewal is held by pointer and stays shared.
+func deepCopyV2(txn types.V2Transaction) types.V2Transaction {
+	c := txn.DeepCopy()
+	for i := range c.FileContractResolutions {
+		if r, ok := c.FileContractResolutions[i].Resolution.(*types.V2FileContractRenewal); ok {
+			rc := *r
+			c.FileContractResolutions[i].Resolution = &rc
+		}
+	}
+	return c
+}
+
 func updateTxnProofs(txn *types.V2Transaction, updateElementProof func(*types.StateElement), numLeaves uint64) (valid bool) {
 	valid = true
 	updateProof := func(e *types.StateElement) {
@@ -1061,7 +1075,7 @@ func (m *Manager) V2PoolTransaction(id types.TransactionID) (types.V2Transaction
 	if !ok || i >= len(m.txpool.v2txns) || m.txpool.v2txns[i].ID() != id {
 		return types.V2Transaction{}, false
 	}
-	return m.txpool.v2txns[i].DeepCopy(), true
+	return deepCopyV2(m.txpool.v2txns[i]), true
 }
 
 // V2PoolTransactions returns the v2 transactions currently in the txpool. Any
@@ -1072,7 +1086,7 @@ func (m *Manager) V2PoolTransactions() []types.V2Transaction {
 	m.revalidatePool()
 	v2txns := make([]types.V2Transaction, len(m.txpool.v2txns))
 	for i, txn := range m.txpool.v2txns {
-		v2txns[i] = txn.DeepCopy()
+		v2txns[i] = deepCopyV2(txn)
 	}
 	return v2txns
 }
@@ -1097,7 +1111,7 @@ func (m *Manager) TransactionsForPartialBlock(missing []types.Hash256) (txns []t
 	}
 	for _, txn := range m.txpool.v2txns {
 		if h := txn.MerkleLeafHash(); want[h] {
-			v2txns = append(v2txns, txn.DeepCopy())
+			v2txns = append(v2txns, deepCopyV2(txn))
 			if delete(want, h); len(want) == 0 {
 				return
 			}
@@ -1210,7 +1224,7 @@ func (m *Manager) V2TransactionSet(basis types.ChainIndex, txn types.V2Transacti
 	check := func(id types.Hash256) {
 		if index, ok := parentMap[id]; ok && !seen[index] {
 			seen[index] = true
-			parents = append(parents, m.txpool.v2txns[index].DeepCopy())
+			parents = append(parents, deepCopyV2(m.txpool.v2txns[index]))
 			positions = append(positions, index)
 		}
 	}
@@ -1317,7 +1331,7 @@ func (m *Manager) updateV2TransactionProofs(txns []types.V2Transaction, from, to
 	// work on a deep copy of the transactions
 	updated = make([]types.V2Transaction, 0, len(txns))
 	for _, txn := range txns {
-		updated = append(updated, txn.DeepCopy())
+		updated = append(updated, deepCopyV2(txn))
 	}
 	for _, index := range revert {
 		b, bs, cs, ok := blockAndParent(m.store, index.ID)
@@ -1501,7 +1515,7 @@ func (m *Manager) AddV2PoolTransactions(basis types.ChainIndex, txns []types.V2T
 	// take ownership of Merkle proofs, and update them to the current tip
 	txns = slices.Clone(txns)
 	for i := range txns {
-		txns[i] = txns[i].DeepCopy()
+		txns[i] = deepCopyV2(txns[i])
 	}
 	txns, err := m.updateV2TransactionProofs(txns, basis, m.tipState.Index)
 	if err != nil {
